@@ -330,7 +330,11 @@ void rfbScheduleCopyRegion(rfbScreenInfoPtr rfbScreen,sraRegionPtr copyRegion,in
        sraRgnOr(cl->modifiedRegion,modifiedRegionBackup);
        sraRgnDestroy(modifiedRegionBackup);
 
-       if(!cl->enableCursorShapeUpdates && cl->screen->cursor) {
+       /* a cursor without pixels (width or height 0) occupies nothing: a rectangle of zero
+        * width or height must never get into a region (it makes the region non-empty
+        * although it covers no pixel, and the update then announces rectangles it does not send) */
+       if(!cl->enableCursorShapeUpdates && cl->screen->cursor &&
+          cl->screen->cursor->width > 0 && cl->screen->cursor->height > 0) {
           /*
            * n.b. (dx, dy) is the vector pointing in the direction the
            * copyrect displacement will take place.  copyRegion is the
